@@ -585,6 +585,10 @@ def _eval_filter(ctx, case):
     except BaseException as e:  # noqa
         ctx.fail('filter-construction', case, {'exc': e})
         return
+    explicit_cause = None
+    if cls == 'chained' and use in ('call-inactive', 'call-other-active'):
+        explicit_cause = Cause('explicit-cause')          # never raised through _throw: chain it by hand
+        exc.__cause__ = explicit_cause
     got = _use_filter(flt, use, st, cls, exc)
     ctx.case(('filter', make, use, pred, cls, msg, code, codes))
     ctx.h('exception_filter usage form', '%s/%s' % (make, use))
@@ -604,6 +608,12 @@ def _eval_filter(ctx, case):
     if got is not exc:
         ctx.fail('filter-same-object', case, {'got': got, 'got_type': type(got).__name__})
         return
+    if cls == 'chained':
+        # the same object, with the exception it was chained to still attached (nothing lost on the way)
+        ctx.clause('filter-cause-kept')
+        want_cause = explicit_cause if explicit_cause is not None else st.cause
+        if got.__cause__ is not want_cause:
+            ctx.fail('filter-cause-kept', case, {'cause_now': got.__cause__, 'cause_before': want_cause})
     if use in ('with', 'with-in-except', 'call-active'):
         # it was the active exception: original traceback tail
         ctx.clause('filter-traceback-tail')
@@ -623,7 +633,7 @@ def _eval_filter(ctx, case):
 RPOE_STATES = ['file', 'absent', 'created-in-body', 'symlink', 'odd-name']
 RPOE_REMOVES = ['default', 'custom-unlink', 'custom-raises', 'custom-raises-after-unlink', 'custom-reentrant']
 RPOE_BODIES = ['raise', 'complete', 'raise-in-except']
-RPOE_CLASSES = ['plain', 'need', 'chained', 'pre', 'key', 'oserror', 'base']
+RPOE_CLASSES = ['plain', 'need', 'chained', 'pre', 'key', 'oserror', 'fnf-naming-path', 'base']
 _path_counter = [0]
 
 
@@ -654,7 +664,13 @@ def _eval_rpoe(ctx, case):
             f.write('t')
         os.symlink(target, path)
     st = _State()
-    exc, site = make_exc(cls)
+    if cls == 'fnf-naming-path':
+        # what os.rename/os.replace/os.link report when the *destination* directory is missing: ENOENT naming the
+        # (existing) source path
+        import errno as _errno
+        exc, site = FileNotFoundError(_errno.ENOENT, 'No such file or directory', path), SITE_ORIG
+    else:
+        exc, site = make_exc(cls)
     calls = []
     rexc = Fresh('remove-failed')
 
